@@ -905,7 +905,10 @@ pub fn c16(h: &Hist, s: u8, v: &mut Verdicts) {
         // the stream it was shown starts somewhere between "first action whose notification could
         // include it" and "first action the twin saw" (the twin was registered right after it)
         let tw_first = si.twin.and_then(|tw| h.evs.iter().find(|e| e.k == K::SBeg && e.idx == tw)).and_then(|e| pos.get(&e.a).copied()).unwrap_or(e_stream.len());
-        let lo = e_stream.iter().position(|x| sh.acts[&x.0].last_rc_end() > t.add_inv).unwrap_or(e_stream.len());
+        // an action's subscriber snapshot is taken before the next action's first reducer-context event:
+        // the subscription can be part of it iff its registration was invoked before that moment
+        let next_first: HashMap<u32, u64> = sh.taken.windows(2).map(|w2| (w2[0], sh.acts[&w2[1]].first)).collect();
+        let lo = e_stream.iter().position(|x| next_first.get(&x.0).copied().unwrap_or(INF) > t.add_inv).unwrap_or(e_stream.len());
         let hi = tw_first.max(lo);
         let mut ok = false;
         let mut best = String::new();
